@@ -95,12 +95,12 @@ def g_axioms():
     has = rowmem(Dv, y)[v]
     term = mmul(mat(h[rv[y]]), mat(h[rowvals(Dv, y)[v]]))
     return [
-        ("definition of the step fold (start)", FA([*a, v], z3.And(gh(*a, v, 0) == z3.And(Rm[v], z3.Not(Dm[v])), gv(*a, v, 0) == mat(h[rv[v]])), patterns=[gv(*a, v, 0)])),
+        ("definition of the step fold (start)", FA([*a, v], z3.And(gh(*a, v, 0) == z3.And(Rm[v], z3.Not(Dm[v])), gv(*a, v, 0) == mat(h[rv[v]])), patterns=[gv(*a, v, 0), gh(*a, v, 0)])),
         # (stated with an explicit successor p2 = p + 1 and a trigger naming both terms: no arithmetic inside the trigger)
         ("definition of the step fold (next common name)", FA([*a, v, p, p2], z3.Implies(z3.And(p >= 0, p2 == p + 1), z3.And(
             gh(*a, v, p2) == z3.Or(gh(*a, v, p), has),
             gv(*a, v, p2) == z3.If(has, z3.If(gh(*a, v, p), madd(gv(*a, v, p), term), term), gv(*a, v, p)))),
-            patterns=[z3.MultiPattern(gv(*a, v, p2), gv(*a, v, p))])),
+            patterns=[z3.MultiPattern(gv(*a, v, p2), gv(*a, v, p)), z3.MultiPattern(gh(*a, v, p2), gh(*a, v, p))])),
     ]
 
 
@@ -191,19 +191,13 @@ def inl_axiom():
     return [("elements of a list are in the list", z3.ForAll([E, n, j], z3.Implies(z3.And(0 <= j, j < n), inl(E, n, E[j])), patterns=[inl(E, n, E[j])]))]
 
 
-def no_self_coupling(dj, tag):
-    """No variable is both produced and read by the discipline (among its differentiated variables)."""
-    y, v = S(f"y!{tag}"), S(f"v!{tag}")
-    return FA([y, v], z3.Implies(z3.And(dj.m[y], dj.has(y, v)), z3.Not(dj.m[v])), patterns=[dj.has(y, v)])
-
-
 def row_done(j0, j1, dj, o, tag):
-    """Row o of the running dictionary after the step (j0: at entry, j1: now)."""
+    """Row o of the running dictionary after the step (j0: at entry, j1: now): for EVERY variable v."""
     v = S(f"v!{tag}")
     n = sn(j0.row(o), dj.rec)
     h_, v_ = g_at(j0, o, dj, v, n)
     return z3.And(
-        z3.Implies(j0.member[o], z3.And(j1.member[o], FA([v], z3.Implies(z3.Not(dj.m[v]), z3.And(j1.rowhas(o, v) == h_, z3.Implies(j1.rh2(o, v), j1.M(o, v) == v_))), patterns=[j1.rowhas(o, v)]))),
+        z3.Implies(j0.member[o], z3.And(j1.member[o], FA([v], z3.And(j1.rowhas(o, v) == h_, z3.Implies(j1.rh2(o, v), j1.M(o, v) == v_)), patterns=[j1.rowhas(o, v)]))),
         z3.Implies(z3.And(z3.Not(j0.member[o]), dj.m[o]), z3.And(j1.member[o], FA([v], z3.And(j1.rowhas(o, v) == dj.has(o, v), z3.Implies(j1.rh2(o, v), j1.M(o, v) == dj.M(o, v))), patterns=[j1.rowhas(o, v)]))),
         z3.Implies(z3.And(z3.Not(j0.member[o]), z3.Not(dj.m[o])), z3.Not(j1.member[o])),
     )
@@ -230,7 +224,11 @@ def _rcr_spec(c, i):
 
     return [
         ("rows-not-yet-reached-kept", FA([j], z3.Implies(z3.And(i <= j, j < L.n), kept(L.elems[j])), patterns=[L.elems[j]])),
-        ("rows-of-other-names-kept", FA([o], z3.Implies(z3.Not(in_list(L, o)), kept(o)), patterns=[j1.vals[o]])),
+        ("rows-of-other-names-kept:membership", FA([o], z3.Implies(z3.Not(in_list(L, o)), j1.member[o] == j0.member[o]), patterns=[j1.member[o]])),
+        # (pointwise, see _inner_frame)
+        ("rows-of-other-names-kept:entries", FA([o, v], z3.Implies(z3.Not(in_list(L, o)), z3.And(j1.rowhas(o, v) == j0.rowhas(o, v), j1.addr(o, v) == j0.addr(o, v))),
+                                                patterns=[j1.rowhas(o, v), j1.addr(o, v)])),
+        ("rows-of-other-names-kept:contents", FA([o, v], z3.Implies(z3.And(z3.Not(in_list(L, o)), j0.has(o, v)), h1[j0.addr(o, v)] == h0[j0.addr(o, v)]), patterns=[h1[j0.addr(o, v)]])),
         ("frame:arrays-of-the-disciplines-untouched", below_wm_kept(h0, h1, "sp")),
         ("chained-rows", FA([j], z3.Implies(z3.And(0 <= j, j < i), row_done(j0, j1, dj, L.elems[j], "rd")), patterns=[L.elems[j]])),
         ("counter-monotonic", c.new_ctr >= c.old_ctr),
@@ -276,20 +274,10 @@ def _cjr_inv(c, k):
     return _cjr_spec(c, c.old.jacobian, c.locals["jacobian_copy"], lambda x: c.seq.pos[x] < k)
 
 
-def _wip(cls):
-    """WORK IN PROGRESS: registered only with C09N_WIP=1.  The contract is complete and every obligation of the innermost loop, of the
-    initialisations and of the postcondition is discharged in well under a second, but three preservation obligations of the middle loop
-    (after the summarised inner loop, non-empty block row) are not discharged by z3 within the quick budget (instantiation blow-up; cvc5 /
-    z3 4.8 prove `composed-so-far` in some formulations) - not stable enough to be part of the C09 check."""
-    import os
-
-    return register(cls) if os.environ.get("C09N_WIP") == "1" else cls
-
-
-@_wip
+@register
 class ReverseChainRule(Contract):
-    """One step of the reverse accumulation (see the module docstring).  The clause `entries-to-compose-untouched` of the middle loop fails for
-    a discipline with a variable that is both produced and read (finding region `self-coupled-discipline`, replayed natively)."""
+    """One step of the reverse accumulation (see the module docstring), on the repaired source (53b5901): the entries of the variables the
+    discipline produces are popped first (`curr_jacs`), then composed."""
 
     targets = (CHAIN + ".reverse_chain_rule",)
     prop = ("C09",)
@@ -298,18 +286,18 @@ class ReverseChainRule(Contract):
     modifies = ("self.jac", "heap:arr")
     c09_numeric = True
     callee_variants = {CHAIN + ".copy_jacs": "row"}
+    # the inner loops only modify the row through its local alias `output_jac` (written back to its slot of self.jac): the other rows are kept
+    # structurally, and the invariant clause `only-this-row-of-the-dictionary-changes` states the frame of self.jac itself
+    alias_modifies_slot_owner = True
+    _inner = ("output_jac", "heap:arr")
     loops = {
         0: LoopSpec(anchor="chain_outputs", inv=lambda c, k: _rcr_spec(c, k), modifies=("self.jac", "heap:arr")),
-        1: LoopSpec(anchor="common_inputs", inv=lambda c, k: _rcr_inv1(c, k), modifies=("self.jac", "heap:arr")),
-        2: LoopSpec(anchor="discipline.jac[input_name].items()", inv=lambda c, k: _rcr_inv2(c, k), modifies=("self.jac", "heap:arr")),
+        1: LoopSpec(anchor="curr_jacs.items()", inv=lambda c, k: _rcr_inv1(c, k), modifies=_inner),
+        2: LoopSpec(anchor="discipline.jac[input_name].items()", inv=lambda c, k: _rcr_inv2(c, k), modifies=_inner),
     }
 
     def axioms(self, c):
         return g_axioms() + trg_axiom() + inl_axiom()
-
-    def finding_regions(self, c):
-        j0, j1, dj, h0, h1 = _states(c)
-        return {"self-coupled-discipline": z3.Not(no_self_coupling(dj, "fr"))}
 
     def requires(self, c):
         j0, j1, dj, h0, h1 = _states(c)
@@ -320,55 +308,88 @@ class ReverseChainRule(Contract):
         ] + struct(j0, c.old_ctr, "st0")
 
     def ensures(self, c):
-        j0, j1, dj, h0, h1 = _states(c)
-        A0, A1 = c.old.self._c09n_disc_jacs, c.new.self._c09n_disc_jacs
         return _rcr_spec(c, c.old.chain_outputs.n)
 
 
-def _pre_state(c):
+def base_rows(vals, o_):
+    """The rows of the dictionary apart from row o_ (the dictionary is `Store(rest, o_, row)` while the local alias of row o_ is alive)."""
+    t = z3.simplify(vals)
+    while z3.is_store(t) and t.arg(1).eq(o_):
+        t = t.arg(0)
+    return t
+
+
+class Row:
+    """The local alias `output_jac` of the current row (a dictionary {variable: block reference}) in a heap."""
+
+    def __init__(self, view, h):
+        self.m, self.v, self.h = view.member, view.vals, h
+
+    def M(self, x):
+        return mat(self.h[self.v[x]])
+
+    def has2(self, x):
+        return z3.And(self.m[x], trg2(self.v[x]))
+
+
+def _inner_states(c):
     pre = c.pre_locals["self"]
     hp = pre._heap.sym.get("arr", c.old_sym("arr", ValS))
-    return JS(pre.jac, hp), hp, pre._heap.ctr
+    h1 = c.new_sym("arr", ValS)
+    o_ = c.locals["output_name"]
+    jp, j1 = JS(pre.jac, hp), JS(c.new.self.jac, h1)
+    return o_, jp, j1, hp, h1, pre._heap.ctr, Row(c.locals["output_jac"], h1), Row(c.pre_locals["output_jac"], hp), c.locals["curr_jacs"]
 
 
-def _row_frame(jp, j1, hp, h1, o_, tag):
-    """Since the loop was entered only row o_ of the running dictionary changed; arrays at or below the watermark and blocks of other rows are untouched."""
-    o, v = S(f"o!{tag}"), S(f"v!{tag}")
+def _inner_frame(c, tag):
+    """What both inner loops keep: the other rows and their blocks, the arrays of the disciplines, the popped blocks; the blocks of the
+    current row are allocated above the watermark, pairwise distinct, distinct from the blocks of the other rows and from the popped ones."""
+    o_, jp, j1, hp, h1, ctrp, row, rowp, CJ = _inner_states(c)
+    B, Bp = base_rows(j1.vals, o_), base_rows(jp.vals, o_)  # the other rows: the SAME term in every state of the two inner loops
+    o, v, v2, y = S(f"o!{tag}"), S(f"v!{tag}"), S(f"v2!{tag}"), S(f"y!{tag}")
+    ob = rowvals(B, o)[v]  # a block of another row
+    other = z3.And(o != o_, j1.member[o], rowmem(B, o)[v], trg2(ob))
+    ctr = c.new_ctr
     return [
-        ("same-outputs-as-at-loop-entry", FA([o], j1.member[o] == jp.member[o], patterns=[j1.member[o]])),
-        ("other-rows-untouched", FA([o], z3.Implies(o != o_, j1.vals[o] == jp.vals[o]), patterns=[j1.vals[o]])),
+        ("row-present", j1.member[o_]),
+        ("only-this-row-of-the-dictionary-changes", z3.And(j1.member == jp.member, B == Bp, c.new.self.jac.n == c.pre_locals["self"].jac.n)),
         ("arrays-of-the-disciplines-untouched", below_wm_kept(hp, h1, tag)),
-        ("blocks-of-other-rows-untouched", FA([o, v], z3.Implies(z3.And(o != o_, jp.has(o, v)), h1[jp.addr(o, v)] == hp[jp.addr(o, v)]), patterns=[h1[jp.addr(o, v)]])),
+        ("blocks-of-other-rows-untouched", FA([o, v], z3.Implies(other, h1[ob] == hp[ob]), patterns=[h1[ob]])),
+        ("popped-blocks-untouched", FA([y], z3.Implies(CJ.member[y], h1[CJ.vals[y]] == hp[CJ.vals[y]]), patterns=[h1[CJ.vals[y]]])),
+        ("counter-monotonic", ctr >= ctrp),
+        ("row-blocks-allocated-above-the-watermark", FA([v], z3.Implies(row.m[v], z3.And(row.v[v] > wm, row.v[v] <= ctr)), patterns=[row.v[v]])),
+        ("row-blocks-pairwise-distinct", FA([v, v2], z3.Implies(z3.And(trg(row.v[v]), row.m[v], row.has2(v2), row.v[v] == row.v[v2]), v == v2),
+                                            patterns=[z3.MultiPattern(trg(row.v[v]), trg2(row.v[v2]))])),
+        ("row-blocks-distinct-from-the-blocks-of-other-rows", FA([o, v, v2], z3.Implies(z3.And(other, trg(row.v[v2]), row.m[v2]), ob != row.v[v2]),
+                                                                 patterns=[z3.MultiPattern(trg(row.v[v2]), trg2(ob))])),
+        ("row-blocks-distinct-from-the-popped-blocks", FA([v, y], z3.Implies(z3.And(trg(row.v[v]), row.m[v], CJ.member[y]), row.v[v] != CJ.vals[y]),
+                                                          patterns=[z3.MultiPattern(trg(row.v[v]), CJ.member[y])])),
     ]
 
 
 def _rcr_inv1(c, p):
-    j0, j1, dj, h0, h1 = _states(c)
-    jp, hp, ctrp = _pre_state(c)
-    o_ = c.locals["output_name"]
+    j0, _, dj, h0, _ = _states(c)
+    o_, jp, j1, hp, h1, ctrp, row, rowp, CJ = _inner_states(c)
     v, y = S("v!i1"), S("y!i1")
+    t = z3.Int("t!i1")
+    R0, D = j0.row(o_), dj.rec
     h_, v_ = g_at(j0, o_, dj, v, p)
-    return _row_frame(jp, j1, hp, h1, o_, "f1") + [
-        ("current-row-present", j1.member[o_]),
-        ("composed-so-far", FA([v], z3.Implies(z3.Not(dj.m[v]), z3.And(j1.rowhas(o_, v) == h_, z3.Implies(j1.rh2(o_, v), j1.M(o_, v) == v_))), patterns=[j1.rowhas(o_, v)])),
-        # the entries the products read (variables the discipline produces) still hold their ENTRY value
-        ("entries-to-compose-untouched", FA([y], z3.Implies(dj.m[y], z3.And(j1.rowhas(o_, y) == j0.rowhas(o_, y), j1.addr(o_, y) == j0.addr(o_, y),
-                                                                           z3.Implies(j0.rh2(o_, y), h1[j0.addr(o_, y)] == h0[j0.addr(o_, y)]))), patterns=[j1.rowhas(o_, y)])),
-        ("row-at-loop-entry-is-the-entry-row", jp.vals[o_] == j0.vals[o_]),
-        # (ground hints: the sizes the well-formedness facts of the two dictionaries talk about are decided, the name to compose is a common key)
-        ("hint:sizes", z3.Implies(p < sn(j0.row(o_), dj.rec), z3.And(JROW.acc(2)(j0.vals[o_]) >= 1, JROW.acc(2)(jp.vals[o_]) >= 1, JADDR.acc(2)(dj.rec) >= 1,
-                                                                     j0.rowhas(o_, sa(j0.row(o_), dj.rec, p)), dj.m[sa(j0.row(o_), dj.rec, p)]))),
-        ("counter-monotonic", c.new_ctr >= ctrp),
-        ("trigger:block-to-compose", trg(j1.addr(o_, sa(j0.row(o_), dj.rec, p)))),
-    ] + struct(j1, c.new_ctr, "s1")
+    return _inner_frame(c, "f1") + [
+        # the popped entries, in the vocabulary of the entry state (ground / single-trigger restatements of the facts known when `curr_jacs` was built)
+        ("popped:names-in-sorted-order", FA([t], CJ.keys[t] == sa(R0, D, t), patterns=[CJ.keys[t]])),
+        ("popped:count", CJ.n == sn(R0, D)),
+        ("popped:are-the-common-names", FA([y], CJ.member[y] == z3.And(j0.rowhas(o_, y), dj.m[y]), patterns=[CJ.member[y]])),
+        ("popped:are-the-entry-blocks", CJ.vals == rowvals(j0.vals, o_)),
+        ("popped:allocated-at-entry", FA([y], z3.Implies(CJ.member[y], z3.And(CJ.vals[y] <= c.old_ctr, hp[CJ.vals[y]] == h0[CJ.vals[y]])), patterns=[CJ.vals[y]])),
+        ("composed-so-far", FA([v], z3.And(row.m[v] == h_, z3.Implies(row.has2(v), row.M(v) == v_)), patterns=[row.m[v]])),
+    ]
 
 
 def _rcr_inv2(c, q):
-    j0, j1, dj, h0, h1 = _states(c)
-    jq, hq, ctrq = _pre_state(c)
-    o_, y_ = c.locals["output_name"], c.locals["input_name"]
-    cj = c.locals["curr_jac"]
-    v, o2, v2 = S("v!i2"), S("o2!i2"), S("v2!i2")
+    j0, _, dj, h0, _ = _states(c)
+    o_, jq, j1, hq, h1, ctrq, row, rowq, CJ = _inner_states(c)
+    y_, cj = c.locals["input_name"], c.locals["curr_jac"]
+    v = S("v!i2")
     pos, keys, n = c.seq.pos, c.seq.keys, c.seq.n
     t_ = z3.Int("t!i2")
 
@@ -376,21 +397,14 @@ def _rcr_inv2(c, q):
         return mmul(mat(hq[cj]), dj.M(y_, x))
 
     def composed(x):
-        return z3.And(j1.rowhas(o_, x), z3.Implies(trg2(j1.addr(o_, x)), j1.M(o_, x) == z3.If(z3.And(jq.rowhas(o_, x), x != y_), madd(jq.M(o_, x), term(x)), term(x))))
+        return z3.And(row.m[x], z3.Implies(trg2(row.v[x]), row.M(x) == z3.If(rowq.m[x], madd(rowq.M(x), term(x)), term(x))))
 
     def untouched(x):
-        return z3.And(j1.rowhas(o_, x) == jq.rowhas(o_, x), j1.addr(o_, x) == jq.addr(o_, x), z3.Implies(jq.rh2(o_, x), h1[jq.addr(o_, x)] == hq[jq.addr(o_, x)]))
+        return z3.And(row.m[x] == rowq.m[x], row.v[x] == rowq.v[x], z3.Implies(rowq.has2(x), h1[rowq.v[x]] == hq[rowq.v[x]]))
 
-    # (stated over the positions of the enumeration of D[y]; a position term pos[v] is only ever built for a v known to be an input of D[y])
-    return _row_frame(jq, j1, hq, h1, o_, "f2") + [
-        ("current-row-present", j1.member[o_]),
-        ("blocks-composed", FA([t_], z3.Implies(z3.And(0 <= t_, t_ < q), composed(keys[t_])), patterns=[keys[t_]])),
-        ("blocks-still-to-compose-untouched", FA([t_], z3.Implies(z3.And(q <= t_, t_ < n), untouched(keys[t_])), patterns=[keys[t_]])),
-        ("other-entries-untouched", FA([v], z3.Implies(z3.Not(dj.has(y_, v)), untouched(v)), patterns=[j1.rowhas(o_, v)])),
-        ("inputs-of-the-block-row-are-enumerated", FA([v], z3.Implies(dj.has(y_, v), z3.And(0 <= pos[v], pos[v] < n, keys[pos[v]] == v)), patterns=[j1.rowhas(o_, v)])),
-        # the array read as `curr_jac` is not modified while it is being composed, and it is either still the block (o, y) or orphaned
-        ("composed-block-untouched", z3.And(h1[cj] == hq[cj], cj <= ctrq)),
-        ("composed-block-owned-by-its-entry-only", FA([o2, v2], z3.Implies(z3.And(j1.has(o2, v2), j1.addr(o2, v2) == cj), z3.And(o2 == o_, v2 == y_)), patterns=[j1.addr(o2, v2)])),
-        ("counter-monotonic", c.new_ctr >= ctrq),
-        ("trigger:block-to-update", z3.And(trg(j1.addr(o_, c.seq.keys[q])), trg2(j1.addr(o_, c.seq.keys[q])))),
-    ] + struct(j1, c.new_ctr, "s2")
+    done = z3.And(dj.has(y_, v), pos[v] < q)
+    return _inner_frame(c, "f2") + [
+        ("blocks-composed", FA([v], z3.Implies(done, composed(v)), patterns=[row.m[v]])),
+        ("other-entries-untouched", FA([v], z3.Implies(z3.Not(done), untouched(v)), patterns=[row.m[v]])),
+        ("trigger:block-to-update", z3.And(trg(row.v[keys[q]]), trg2(row.v[keys[q]]))),
+    ]
